@@ -436,18 +436,18 @@ class Mesh2DTopology:
     @property
     def node_x(self) -> xarray.DataArray:
         """Data array of node X / longitude coordinates."""
-        return self.dataset.data_vars[self._node_coordinates[0]]
+        return self.dataset[self._node_coordinates[0]]
 
     @property
     def node_y(self) -> xarray.DataArray:
         """Data array of node Y / latitude coordinates."""
-        return self.dataset.data_vars[self._node_coordinates[1]]
+        return self.dataset[self._node_coordinates[1]]
 
     @property
     def edge_x(self) -> xarray.DataArray | None:
         """Data array of characteristic edge X / longitude coordinates. Optional."""
         try:
-            return self.dataset.data_vars[self._edge_coordinates[0]]
+            return self.dataset[self._edge_coordinates[0]]
         except KeyError:
             return None
 
@@ -455,7 +455,7 @@ class Mesh2DTopology:
     def edge_y(self) -> xarray.DataArray | None:
         """Data array of characteristic edge y / latitude coordinates. Optional."""
         try:
-            return self.dataset.data_vars[self._edge_coordinates[1]]
+            return self.dataset[self._edge_coordinates[1]]
         except KeyError:
             return None
 
@@ -463,7 +463,7 @@ class Mesh2DTopology:
     def face_x(self) -> xarray.DataArray | None:
         """Data array of characteristic face x / longitude coordinates. Optional."""
         try:
-            return self.dataset.data_vars[self._face_coordinates[0]]
+            return self.dataset[self._face_coordinates[0]]
         except KeyError:
             return None
 
@@ -471,7 +471,7 @@ class Mesh2DTopology:
     def face_y(self) -> xarray.DataArray | None:
         """Data array of characteristic face y / latitude coordinates. Optional."""
         try:
-            return self.dataset.data_vars[self._face_coordinates[1]]
+            return self.dataset[self._face_coordinates[1]]
         except KeyError:
             return None
 
